@@ -53,7 +53,7 @@ From ZI Require Import Lib.Util.
 From ZI Require Export Model.DeclOps.
 
 Record crec := mkC { c_bases : list cls; c_decl : list iface; c_inherit : bool; c_cprov : list iface;
-                     c_meta : option (list iface) }.
+                     c_meta : option (list iface); c_builtin : bool }.
 (* the interfaces implementedBy(type(cls)) names directly *)
 Definition meta_direct (r : crec) : list iface := match c_meta r with Some l => l | None => [] end.
 Record irec := mkI { i_cls : cls; i_live : bool; i_prov : option (list iface) }.
@@ -116,7 +116,7 @@ Definition class_ordered (ev : bool) (g : igraph) (st : state) (c : cls) (before
   | Some r =>
       let fl := cflat g st c in
       let nd := dedup (keepnew fl before ++ c_decl r ++ keepnew fl after) in
-      set_class ev st c (mkC (c_bases r) nd (c_inherit r) (c_cprov r) (c_meta r))
+      set_class ev st c (mkC (c_bases r) nd (c_inherit r) (c_cprov r) (c_meta r) (c_builtin r))
   end.
 
 (* declarations.py:classImplements — before/after split by strict ``extends`` *)
@@ -133,7 +133,7 @@ Definition class_only (ev : bool) (g : igraph) (st : state) (c : cls) (l : list 
   match nth_error (classes st) c with
   | None => st
   | Some r =>
-      let st1 := set_class ev st c (mkC (c_bases r) [] false (c_cprov r) (c_meta r)) in
+      let st1 := set_class ev st c (mkC (c_bases r) [] false (c_cprov r) (c_meta r) (c_builtin r)) in
       class_ordered ev g st1 c l []
   end.
 
@@ -145,11 +145,16 @@ Definition provides (g : igraph) (st : state) (d : cls) (args : list iface) : st
             (mkS (classes st) (insts st) (((d, args), k) :: cache st), k)
   end.
 
+(* instances of built-in types have no __dict__: ``object.__provides__ = ...`` raises
+   AttributeError (the specification built for the attempt is garbage at once) *)
+Definition class_builtin (st : state) (c : cls) : bool :=
+  match nth_error (classes st) c with Some r => c_builtin r | None => false end.
+
 (* directlyProvides, instance branch *)
 Definition direct_inst (g : igraph) (st : state) (o : obj) (args : list iface) : state :=
   match nth_error (insts st) o with
   | Some r =>
-      if i_live r then
+      if i_live r && negb (class_builtin st (i_cls r)) then
         let '(st1, k) := provides g st (i_cls r) args in
         mkS (classes st1) (upd (insts st1) o (mkI (i_cls r) true (Some k))) (cache st1)
       else st
@@ -160,9 +165,10 @@ Definition direct_inst (g : igraph) (st : state) (o : obj) (args : list iface) :
    with cls = the metaclass; _add_interfaces_to_cls strips what implementedBy(metaclass) implies *)
 Definition direct_cls (g : igraph) (st : state) (c : cls) (args : list iface) : state :=
   match nth_error (classes st) c with
-  | Some r => mkS (upd (classes st) c (mkC (c_bases r) (c_decl r) (c_inherit r)
-                                           (keepnew (closure g (meta_direct r)) args) (c_meta r)))
-                  (insts st) (cache st)
+  | Some r => if c_builtin r then st   (* TypeError: cannot set attribute of immutable type *)
+              else mkS (upd (classes st) c (mkC (c_bases r) (c_decl r) (c_inherit r)
+                                                (keepnew (closure g (meta_direct r)) args) (c_meta r) (c_builtin r)))
+                       (insts st) (cache st)
   | None => st
   end.
 
@@ -185,35 +191,6 @@ Definition dpb (st : state) (t : target) : list iface :=
               end
   end.
 
-Definition step (ev : bool) (g : igraph) (st : state) (o : op) : state :=
-  match o with
-  | NewClass bs m =>
-      let n := length (classes st) in
-      mkS (classes st ++ [mkC (filter (fun b => Nat.ltb b n) bs) [] true [] m]) (insts st) (cache st)
-  | NewInstance c =>
-      if Nat.ltb c (length (classes st))
-      then mkS (classes st) (insts st ++ [mkI c true None]) (cache st)
-      else st
-  | DropInstance o =>
-      match nth_error (insts st) o with
-      | Some r => mkS (classes st) (upd (insts st) o (mkI (i_cls r) false (i_prov r))) (cache st)
-      | None => st
-      end
-  | Implementer c l => class_implements ev g st c l
-  | ClassImplements c l => class_implements ev g st c l
-  | ImplementerOnly c l => class_only ev g st c l
-  | ClassImplementsOnly c l => class_only ev g st c l
-  | ClassImplementsFirst c x => class_ordered ev g st c [x] []
-  | DirectlyProvides t l => directly g st t l
-  | Provider t l => directly g st t l
-  | AlsoProvides t l => directly g st t (dpb st t ++ l)
-  | NoLongerProvides t x => directly g st t (filter (fun i => negb (ext g i x)) (dpb st t))
-  end.
-
-Definition run (ev : bool) (g : igraph) (ops : list op) : state := fold_left (step ev g) ops init.
-
-(* ---- queries *)
-
 (* the interfaces named directly in the specification providedBy(t) returns, and below it:
    instance with __provides__: kept + implementedBy(cls); instance without: implementedBy(cls)
    (ObjectSpecificationDescriptor.__get__ / ClassProvidesBase.__get__ -> _implements);
@@ -235,6 +212,45 @@ Definition spec_direct (st : state) (t : target) : list iface :=
               end
   end.
 
+(* _normalizeargs on the arguments of a call, in the state the call is made in:
+   Declaration.__iter__ = interfaces() of the object (its directly named interfaces, each once) *)
+Definition narg (st : state) (a : arg) : list iface :=
+  match a with
+  | AI i => [i]
+  | ADirectlyProvidedBy t => dpb st t
+  | AProvidedBy t => dedup (spec_direct st t)
+  end.
+Definition nargs (st : state) (l : list arg) : list iface := flat_map (narg st) l.
+
+Definition step (ev : bool) (g : igraph) (st : state) (o : op) : state :=
+  match o with
+  | NewClass bs m bi =>
+      let n := length (classes st) in
+      mkS (classes st ++ [mkC (dedup (filter (fun b => Nat.ltb b n) bs)) [] true [] m bi]) (insts st) (cache st)
+  | NewInstance c =>
+      if Nat.ltb c (length (classes st))
+      then mkS (classes st) (insts st ++ [mkI c true None]) (cache st)
+      else st
+  | DropInstance o =>
+      match nth_error (insts st) o with
+      | Some r => mkS (classes st) (upd (insts st) o (mkI (i_cls r) false (i_prov r))) (cache st)
+      | None => st
+      end
+  | Implementer c l => class_implements ev g st c (nargs st l)
+  | ClassImplements c l => class_implements ev g st c (nargs st l)
+  | ImplementerOnly c l => class_only ev g st c (nargs st l)
+  | ClassImplementsOnly c l => class_only ev g st c (nargs st l)
+  | ClassImplementsFirst c x => class_ordered ev g st c [x] []
+  | DirectlyProvides t l => directly g st t (nargs st l)
+  | Provider t l => directly g st t (nargs st l)
+  | AlsoProvides t l => directly g st t (dpb st t ++ nargs st l)
+  | NoLongerProvides t x => directly g st t (filter (fun i => negb (ext g i x)) (dpb st t))
+  end.
+
+Definition run (ev : bool) (g : igraph) (ops : list op) : state := fold_left (step ev g) ops init.
+
+(* ---- queries *)
+
 (* providedBy(t).flattened() *)
 Definition provided (g : igraph) (st : state) (t : target) : list iface := closure g (spec_direct st t).
 (* I.providedBy(t): I in providedBy(t)._implied *)
@@ -251,6 +267,22 @@ Definition raises (g : igraph) (st' : state) (o : op) : bool :=
   match o with
   | NoLongerProvides t x => i_providedBy g st' t x
   | _ => false
+  end.
+
+(* the exception a step ends with: 0 none, 1 ValueError (noLongerProvides of something still
+   provided), 2 TypeError (object-level declaration on a built-in type), 3 AttributeError
+   (object-level declaration on an instance of a built-in type); [st] before, [st'] after *)
+Definition exc_code (g : igraph) (st st' : state) (o : op) : nat :=
+  match o with
+  | DirectlyProvides t _ | AlsoProvides t _ | NoLongerProvides t _ | Provider t _ =>
+      match t with
+      | TCls c => if class_builtin st c then 2 else if raises g st' o then 1 else 0
+      | TInst i => match nth_error (insts st) i with
+                   | Some r => if class_builtin st (i_cls r) then 3 else if raises g st' o then 1 else 0
+                   | None => 0
+                   end
+      end
+  | _ => 0
   end.
 
 (* ---- classification of the declaration calls (used to state non-interference) *)
@@ -271,3 +303,19 @@ Definition other_inst_decl (o : obj) (p : op) : bool :=
   | Some (TInst o') => negb (Nat.eqb o' o)
   | _ => false
   end.
+
+(* the arguments of a declaration call, and whether they read only o, class objects and
+   interfaces (used to state history-level non-interference) *)
+Definition op_args (p : op) : list arg :=
+  match p with
+  | Implementer _ l | ImplementerOnly _ l | ClassImplements _ l | ClassImplementsOnly _ l
+  | DirectlyProvides _ l | AlsoProvides _ l | Provider _ l => l
+  | _ => []
+  end.
+Definition arg_local (o : obj) (a : arg) : bool :=
+  match a with
+  | AI _ => true
+  | ADirectlyProvidedBy (TInst o') | AProvidedBy (TInst o') => Nat.eqb o' o
+  | _ => true
+  end.
+Definition op_local (o : obj) (p : op) : bool := forallb (arg_local o) (op_args p).
